@@ -93,6 +93,9 @@ def tlc_stats(out):
     m = re.findall(r"(\d+) states generated, (\d+) distinct states found", out)
     if m:
         return int(m[-1][0]), int(m[-1][1])
+    m = re.findall(r"Progress\(\d+\) at [^:]+:\d+:\d+: ([\d,]+) states generated.*?, ([\d,]+) distinct states found", out)
+    if m:
+        return int(m[-1][0].replace(",", "")), int(m[-1][1].replace(",", ""))
     m = re.findall(r"The number of states generated: (\d+)", out)
     if m:
         return int(m[-1]), 0
